@@ -16,6 +16,7 @@ import time
 import common
 import gen_ast
 import lib
+import relational
 
 STAGES = {
     "text": {"print", "glue", "tags", "icond", "iseq", "set", "temp", "block_if", "block_seq"},
@@ -48,6 +49,15 @@ def turn_of(rec):
     return {"lines": lines, "choices": choices, "status": status}
 
 
+def cont_of(rec):
+    """one cont of the real engine, as a host sees it"""
+    o = rec.get("obs") or {}
+    vs = {k: value_json(v) for k, v in (o.get("vars") or {}).items() if value_json(v)}
+    return {"text": chars(rec.get("val") or ""), "tags": [chars(x) for x in (o.get("tags") or [])], "can": bool(o.get("can")),
+            "choices": [chars(c["text"]) for c in o.get("choices", [])], "vars": vs or {"_": {"t": "int", "v": 0}},
+            "err": rec.get("res") != "ok" or bool(o.get("errors"))}
+
+
 def value_json(v):
     if v.get("t") in ("int", "bool"):
         return {"t": v["t"], "v": v["v"]}
@@ -59,7 +69,7 @@ def value_json(v):
 def build_cases(progs, wd, depth, max_paths, per_prog, flavour="debug"):
     ps = [dict(id="ast-%d" % p["seed"], src=p["ink"], ast=p) for p in progs]
     exs, counts = common.explore(ps, wd, depth=depth, max_paths=max_paths, seed=7, fuel=20000,
-                                 obs={"save": False, "vars": True, "visits": True}, name="c01", flavour=flavour, turns=True)
+                                 obs={"save": False, "vars": True, "visits": True}, name="c01", flavour=flavour, turns=False)
     cases, skipped = [], dict(counts)
     skipped["compile_error_list"] = []
     by_id = {e.prog["id"]: e for e in exs}
@@ -78,19 +88,20 @@ def build_cases(progs, wd, depth, max_paths, per_prog, flavour="debug"):
         paths = sorted(e.paths, key=lambda t: (-len(t), t))
         maximal = [t for t in paths if not any(len(u) > len(t) and u[:len(t)] == t for u in paths)]
         for t in maximal[:per_prog]:
-            turns = []
+            turns, conts = [], []
             for k in range(len(t) + 1):
                 new = e.paths[t[:k]]["new"]
-                trs = [r for r in new if r.get("op") == "turn"]
+                trs = [r for r in relational.collapse_turns(new) if r.get("op") == "turn"]
                 if not trs:
                     break
                 turns.append(turn_of(trs[-1]))
+                conts.append([cont_of(r) for r in new if r.get("op") == "cont"])
             last = [r for r in e.paths[t]["recs"] if r.get("obs")][-1]["obs"]
             fvars = {k: value_json(v) for k, v in (last.get("vars") or {}).items() if value_json(v)}
             fcounts = {k: v for k, v in (last.get("visits") or {}).items() if k in p["ast"]["knots"] and isinstance(v, int)}
             cases.append(dict(case="%s/%s" % (p["id"], "".join(map(str, t)) or "-"), prog=p["ast"]["prog"], path=list(t),
                               turns=turns, final={"vars": fvars or {"_": {"t": "int", "v": 0}}, "counts": fcounts or {"_": 0}},
-                              prog_id=p["id"]))
+                              conts=conts, prog_id=p["id"]))
     for p in ps:
         e = by_id.get(p["id"])
         if e is None:
@@ -98,12 +109,15 @@ def build_cases(progs, wd, depth, max_paths, per_prog, flavour="debug"):
     return cases, skipped, {p["id"]: p for p in ps}
 
 
-def run_tlc_one(cases, wd, name):
-    path = os.path.join(wd, "%s.sem.ndjson" % name)
+def run_tlc_one(cases, wd, name, module="InkSemTrace", envvar="SEM"):
+    path = os.path.join(wd, "%s.%s.ndjson" % (name, envvar.lower()))
     with open(path, "w") as f:
         for c in cases:
-            f.write(json.dumps({k: c[k] for k in ("case", "prog", "path", "turns", "final")}) + "\n")
-    res = lib.run_tlc("InkSemTrace", "InkSemTrace.cfg", wd, env_extra={"SEM": path}, workers=1, timeout=3000, xmx="3g")
+            if module == "InkSemTrace":
+                f.write(json.dumps({k: c[k] for k in ("case", "prog", "path", "turns", "final")}) + "\n")
+            else:
+                f.write(json.dumps({"case": c["case"], "prog": c["prog"], "path": c["path"], "turns": c["conts"]}) + "\n")
+    res = lib.run_tlc(module, module + ".cfg", wd, env_extra={envvar: path}, workers=1, timeout=3000, xmx="3g")
     mism = []
     for line in lib.tlc_prints(res["out"], "MISMATCH"):
         m = re.match(r'<<"MISMATCH", "([^"]*)", (\d+), "([^"]*)", "([^"]*)", "(.*)">>$', line)
@@ -113,17 +127,17 @@ def run_tlc_one(cases, wd, name):
         mism.append(dict(case=m.group(1), turn=int(m.group(2)), rule=m.group(3), detail=m.group(4), expected=exp))
     cons = lib.tlc_prints(res["out"], "CONSUMED")
     if not res["ok"] or not cons:
-        raise lib.ToolError("InkSemTrace failed:\n" + "\n".join(res["out"].splitlines()[-30:]))
+        raise lib.ToolError("%s failed:\n" % module + "\n".join(res["out"].splitlines()[-30:]))
     return res, mism
 
 
-def run_tlc(cases, wd, name="c01", jobs=12):
+def run_tlc(cases, wd, name="c01", jobs=12, module="InkSemTrace", envvar="SEM"):
     """the cases are independent: several TLC processes share them"""
     from concurrent.futures import ThreadPoolExecutor
     jobs = max(1, min(jobs, len(cases) // 10 or 1))
     parts = [cases[i::jobs] for i in range(jobs)]
     with ThreadPoolExecutor(jobs) as ex:
-        outs = list(ex.map(lambda a: run_tlc_one(a[1], wd, "%s-%d" % (name, a[0])), enumerate(parts)))
+        outs = list(ex.map(lambda a: run_tlc_one(a[1], wd, "%s-%d" % (name, a[0]), module, envvar), enumerate(parts)))
     res = dict(ok=True, distinct=sum(r["distinct"] for r, _ in outs), states=sum(r["states"] for r, _ in outs))
     return res, [m for _, ms in outs for m in ms], True
 
@@ -154,6 +168,7 @@ def run(tier, seed, features=None, n=None, debug=False):
         f = feats if r else feats & (STAGES["text"] | STAGES["choices"])
         progs.append(gen_ast.generate(seed * 1000003 + i, f, knots=2 + i % 3))
     all_cases, all_mism, states, trans = [], [], 0, 0
+    look_cases = look_conts = 0
     skipped_total = {}
     srcs = {}
     chunk = 300
@@ -175,11 +190,25 @@ def run(tier, seed, features=None, n=None, debug=False):
         res, mism, cons = run_tlc(cases, wd, "c01-%d" % k)
         states += res["distinct"]
         trans += res["states"]
+        # line by line against the look-ahead mechanism (cases whose plays raised no engine error)
+        lcases = [c for c in cases if not any(r["err"] for t in c["conts"] for r in t)]
+        res2, mism2, _ = run_tlc(lcases, wd, "c01look-%d" % k, module="InkLookTrace", envvar="LOOK")
+        states += res2["distinct"]
+        trans += res2["states"]
+        look_cases += len(lcases)
+        look_conts += sum(len(t) for c in lcases for t in c["conts"])
+        mism += mism2
         bycase = {c["case"]: c for c in cases}
         for m in mism:
             c = bycase[m["case"]]
             m["prog_id"] = c["prog_id"]
-            m["actual"] = c["turns"][m["turn"] - 1] if m["rule"].startswith("Turn.") and m["turn"] <= len(c["turns"]) else c["final"]
+            if m["rule"].startswith("Turn.") and m["turn"] <= len(c["turns"]):
+                m["actual"] = c["turns"][m["turn"] - 1]
+            elif m["rule"].startswith(("Cont.", "Design.")) and m["turn"] <= len(c["conts"]):
+                m["actual"] = [dict(text=text_of(r["text"]), tags=[text_of(x) for x in r["tags"]], can=r["can"],
+                                    choices=[text_of(x) for x in r["choices"]], vars=r["vars"]) for r in c["conts"][m["turn"] - 1]]
+            else:
+                m["actual"] = c["final"]
             m["path"] = c["path"]
         all_mism += mism
         all_cases += cases
@@ -208,6 +237,7 @@ def run(tier, seed, features=None, n=None, debug=False):
               for c in all_cases[:2]]
     cov = dict(states=max(1, states), transitions=max(1, trans), traces_validated_against_impl=len(all_cases),
                evaluations=len(all_cases), distinct_nontrivial=distinct, turns_compared=turns, programs=len(progs),
+               lookahead_cases=look_cases, conts_compared=look_conts,
                explore=skipped_total, samples=sample, features=sorted(feats),
                rule="generated programs (abstract syntax tree + rendered source) over the fragment named in `features`; "
                     "every choice path to the exploration depth, the maximal ones compared; a case is one (program, path); "
